@@ -4,6 +4,7 @@ CONSTANTS
   SdCases <- NoCases
   HlCases <- NoCases
   BtCases <- BtSet
+  NbCases <- NbSet
   CpCases <- NoCases
   MaxOps = 2
   KeepHist = TRUE
